@@ -87,6 +87,46 @@ pub(crate) struct Split {
   pub(crate) no_limit: bool,
 }
 
+/// Verification hook (feature `verif`): builds the unfunded split
+/// transaction from plain data, through the same code as `ord wallet split`.
+#[cfg(feature = "verif")]
+pub fn verif_build_transaction(
+  no_runestone_limit: bool,
+  balances: BTreeMap<OutPoint, BTreeMap<Rune, u128>>,
+  change_address: &Address,
+  postage: Option<Amount>,
+  outputs: Vec<(Address, Option<Amount>, BTreeMap<Rune, u128>)>,
+  rune_info: BTreeMap<Rune, (u8, RuneId, SpacedRune, Option<char>)>,
+) -> Result<Transaction, String> {
+  let splits = Splitfile {
+    outputs: outputs
+      .into_iter()
+      .map(|(address, value, runes)| splitfile::Output {
+        address,
+        value,
+        runes,
+      })
+      .collect(),
+    rune_info: rune_info
+      .into_iter()
+      .map(|(rune, (divisibility, id, spaced_rune, symbol))| {
+        (
+          rune,
+          splitfile::RuneInfo {
+            divisibility,
+            id,
+            spaced_rune,
+            symbol,
+          },
+        )
+      })
+      .collect(),
+  };
+
+  Split::build_transaction(no_runestone_limit, balances, change_address, postage, &splits)
+    .map_err(|err| err.to_string())
+}
+
 #[derive(Debug, Serialize, Deserialize)]
 pub struct Output {
   pub txid: Txid,
